@@ -6,9 +6,10 @@
 From Coq Require Import QArith List String Bool Reals.
 From Coquelicot Require Import Complex.
 Require Import QG.Sym.Expr QG.Sym.Subst QG.Sym.Mat.
-Require Import QG.Model.GateModel QG.Model.Composite QG.Proofs.GateRefl QG.Proofs.MatAlg QG.Proofs.C07Refl QG.Proofs.C07Sem QG.Gen.GenGates.
+Require Import QG.Model.GateModel QG.Model.Composite QG.Proofs.GateRefl QG.Proofs.MatAlg QG.Proofs.C07Refl QG.Proofs.C07Sem QG.Proofs.C04Refl QG.Gen.GenGates.
 Import ListNotations.
 Close Scope Q_scope.
+Open Scope string_scope.
 
 (* 1. With p = 0 and T1 = T2 = 0 (traced with the literal 0) the drift and every stochastic block of the driven
       single-qubit gate, the cross-resonance gate and the idle depolarisation vanish identically. *)
@@ -109,6 +110,25 @@ Proof.
   - exact unitary_composites.
 Qed.
 Print Assumptions C07_unitary_when_relaxation_off.
+
+(* 6. Every gate set: Gates(pulse) forwards each method unchanged to its factory, and ScaledNoiseGates(s) calls the SAME-NAMED
+      method of the wrapped Gates with p*s and T/s — so at zero noise (p = 0, T = 0 stay 0 under scaling) and at T1 = 0 the
+      statements above transfer to every gate set, every pulse and every noise scale. *)
+Theorem C07_all_gate_sets :
+  (fwd_ok gen_gates_fwd_relaxation && fwd_ok gen_gates_fwd_bitflip && fwd_ok gen_gates_fwd_depolarizing && fwd_ok gen_gates_fwd_single_qubit_gate &&
+   fwd_ok gen_gates_fwd_X && fwd_ok gen_gates_fwd_SX && fwd_ok gen_gates_fwd_CR && fwd_ok gen_gates_fwd_CNOT && fwd_ok gen_gates_fwd_CNOT_inv &&
+   fwd_ok gen_gates_fwd_ECR && fwd_ok gen_gates_fwd_ECR_inv = true) /\
+  (scaled_ok gen_scaled_X "X" [same "phi"; times_s "p"; over_s "T1"; over_s "T2"] &&
+   scaled_ok gen_scaled_SX "SX" [same "phi"; times_s "p"; over_s "T1"; over_s "T2"] &&
+   scaled_ok gen_scaled_single_qubit_gate "single_qubit_gate" [same "theta"; same "phi"; times_s "p"; over_s "T1"; over_s "T2"] &&
+   scaled_ok gen_scaled_CR "CR" [same "theta"; same "phi"; same "t_cr"; times_s "p_cr"; over_s "T1c"; over_s "T2c"; over_s "T1t"; over_s "T2t"] &&
+   scaled_ok gen_scaled_relaxation "relaxation" [same "Dt"; over_s "T1"; over_s "T2"] &&
+   scaled_ok gen_scaled_depolarizing "depolarizing" [same "Dt"; times_s "p"] &&
+   scaled_ok gen_scaled_bitflip "bitflip" [same "Dt"; times_s "p"] &&
+   scaled_ok gen_scaled_CNOT "CNOT" comp_spec && scaled_ok gen_scaled_CNOT_inv "CNOT_inv" comp_spec &&
+   scaled_ok gen_scaled_ECR "ECR" comp_spec && scaled_ok gen_scaled_ECR_inv "ECR_inv" comp_spec = true).
+Proof. split; [exact gates_forwarding | exact scaled_noise_gates]. Qed.
+Print Assumptions C07_all_gate_sets.
 
 (* Non-vacuity: the T1-off path sets are non-empty and the zero traces have the expected shape. *)
 Example C07_example :
